@@ -41,10 +41,6 @@ ViewsQuick == {
     <<ShEk("read-write"), ShE("write"), ShA("read-write")>>,
     <<ShE("read"), ShEk("write"), ShB("read-write")>> }
 
-\* every sequence of <= 2 distinct shapes (order matters for Unset), and <= 3 for the simulation
-Views2 == {v \in {<<x>> : x \in Shapes1} \cup {<<x, y>> : x \in Shapes1, y \in Shapes1} : ValidView(v)}
-Views3 == {v \in {<<x, y, z>> : x \in Shapes1, y \in Shapes1, z \in Shapes1} : ValidView(v)}
-
 V1 == Lf("1")
 V2 == Lf("2")
 VS == Lf("s")
@@ -86,7 +82,8 @@ SimNext ==
     \/ \E t \in Txns, r \in RandomSubset(2, UnsetMenu) : Unset(t, r)
     \/ \E t \in Txns, r \in RandomSubset(2, GetMenu) : Get(t, r)
 SimInit ==
-    /\ view \in {Flatten(v) : v \in RandomSubset(1, Views)}
+    /\ viewdef \in Views
+    /\ view = Flatten(viewdef)
     /\ stored = EmptyMap
     /\ open = [t \in Txns |-> FALSE]
     /\ pristine = [t \in Txns |-> EmptyMap]
